@@ -9,7 +9,7 @@ for l in open(f'{HERE}/seeded/sweep_results.jsonl'):
     except Exception: continue
     if 'check' in r: latest[(r['seed'], r['check'])] = r
 rows = []
-for d in sorted(glob.glob(f'{HERE}/seeded/C*_*/')) + sorted(glob.glob(f'{HERE}/seeded/R_*/')):
+for d in sorted(glob.glob(f'{HERE}/seeded/C*_*/')) + sorted(glob.glob(f'{HERE}/seeded/R_*/')) + sorted(glob.glob(f'{HERE}/seeded/X18_*/')):
     s = os.path.basename(d.rstrip('/'))
     m = json.load(open(d + 'meta.json'))
     summ = re.sub(r'\s+', ' ', m['summary']).split('. ')[0][:170].replace('|', '/')
